@@ -2,11 +2,11 @@ SPECIFICATION Spec
 CONSTANTS
  MaxDepth = 2
  MaxItems = 2
- MaxLen = 10
+ MaxLen = 11
  MaxVar = 1
- MaxStr = 1
+ MaxStr = 2
  Linear = FALSE
  Stride = 1
  QKeySlashIsComment = FALSE
-INVARIANTS TypeOK GenRecAgree PrefixRejected SMAgree SMPrefix SMNoUnderflow SMChunks
+INVARIANTS TypeOK GenRecAgree PrefixRejected SMAll
 CHECK_DEADLOCK FALSE
